@@ -1535,7 +1535,7 @@ fn main() {
             // hub trace
             let len = 330 + r.below(271) as usize;
             let ops = gen_hub_ops(&mut r, len);
-            let every = if thorough { 4 + 4 * (c % 2) } else { 24 };
+            let every = if thorough { 4 + 4 * (c % 2) } else { 32 };
             run_trace(&mut out, &mut r, mode, &ops, every as usize, "hub", true);
         } else {
             let len = if w < 40 {
@@ -1550,8 +1550,10 @@ fn main() {
                 1
             } else if thorough {
                 if len <= 30 { 1 } else { 3 }
-            } else {
+            } else if len <= 60 {
                 8
+            } else {
+                16
             };
             run_trace(&mut out, &mut r, mode, &ops, every, "mixed", len > 60);
         }
